@@ -256,6 +256,8 @@ class CallsMixin:
         if not w or os.environ.get('GVC_SELFTEST_NOFRAME'):
             return
         decl = ' '.join(cl.text for cl in c.get('assigns'))
+        if decl.strip() == 'nothing':
+            return          # declared: whatever the body writes belongs to objects it allocates itself
         missing = []
         for f in sorted(w):
             if f == 'elems':
@@ -591,6 +593,8 @@ class CallsMixin:
             self.bound_value(st, v, x.etid)
             self.store_ptr(st, x, v)
             return
+        if target[0] == 'id' and target[1] not in st.names and target[1] not in env.binds:
+            return          # a ghost variable this function never set up: nothing to forget
         raise Unsupported('assigns target %r' % (target,))
 
     def havoc_elems(self, st, x):
